@@ -897,7 +897,11 @@ pub trait DeviceSession {
                 }
             };
             let header = coset::HeaderBuilder::new()
-                .algorithm(signature_algorithm)
+                .algorithm(match self.device_auth_type() {
+                    DeviceAuthType::Sign1 => signature_algorithm,
+                    // ISO/IEC 18013-5 9.1.3.5: mdoc MAC authentication uses HMAC 256/256.
+                    DeviceAuthType::Mac0 => coset::iana::Algorithm::HMAC_256_256,
+                })
                 .build();
 
             let prepared_cose = match self.device_auth_type() {
